@@ -7,6 +7,7 @@ mkdir -p evidence replays
 # other configurations (see ./check): plain release profile with enr without / with rust-secp256k1; minimal (no built-in key type)
 (cd harness && cargo build --profile plain --no-default-features --features builtin,plainprofile --target-dir target-plain --offline) || exit 1
 (cd harness && cargo build --release --no-default-features --target-dir target-min --offline) || exit 1
+(cd harness && cargo build --release --no-default-features --features builtin --target-dir target-k256dbg --offline) || exit 1
 (cd harness && cargo build --profile plain --features plainprofile --target-dir target-plain-all --offline) || exit 1
 # thorough tier only; a failure here is not fatal (the fuzz stage then reports itself unavailable)
 (cd harness && cargo +nightly fuzz build --fuzz-dir "$(pwd)/../fuzz" >/dev/null 2>&1) || echo "note: fuzz targets not built (thorough tier will skip the libFuzzer stage)"
